@@ -163,6 +163,20 @@ func discharge(f *FnVC, o dischargeOpts, stats *runStats) {
 			file := filepath.Join(o.dir, fmt.Sprintf("%s_%03d.smt2", sanitize(f.key), ob.ID))
 			os.WriteFile(file, []byte(script), 0o644)
 			var best solveResult
+			if !ob.Cover && ob.SplitTerm == "" && ob.Blk >= 0 && f.fn != nil && len(f.fn.Blocks) > 3 {
+				// first attempt on the slice of facts that can influence the obligation's block (sound: fewer assumptions)
+				keep := f.ancestors(ob.Blk)
+				if len(keep) < len(f.fn.Blocks) {
+					sfile := filepath.Join(o.dir, fmt.Sprintf("%s_%03d_sl.smt2", sanitize(f.key), ob.ID))
+					os.WriteFile(sfile, []byte(f.scriptForSel(ob, f.scriptHeadSel(true, keep), "", keep)), 0o644)
+					r := runSolver(context.Background(), solvers[0], sfile, minInt(3, o.timeoutS), o.seed)
+					stats.add(r.ms)
+					if r.verdict == "unsat" {
+						ob.Solver, ob.Ms, ob.Output, ob.Status = r.solver+" (sliced)", r.ms, r.output, "proved"
+						return
+					}
+				}
+			}
 			if ob.SplitTerm != "" && !ob.Cover {
 				// case split: one query per value plus the out-of-range case; all must be unsat
 				var cases []string
